@@ -227,6 +227,7 @@ def _last_index_with_component_key(run, args, kwargs, node):
                                                         z3.ForAll([j], z3.Implies(z3.And(OI.get(r) < j, j < n), z3.Not(has(j))))))):
         run.pc.append(ax)
         run.solver_add(ax)
+    run.ghost["last_component_layer"] = Val(OI, r)
     return Val(OI, r)
 
 
@@ -261,14 +262,65 @@ def _alias_innermost(c, var, value_name, unless=None):
     return z3.Implies(given, z3.And(ctx_idx(Dr, k) >= 0, layer_val(Dr, ctx_idx(Dr, k), k) == c.old(value_name).t))
 
 
+def _dicts_insert(run, args, kwargs, node):
+    """ctx.dicts.insert(i, layer): Python's list.insert (done by the executor as usual); GHOST: the position the layer ends up
+    at (i normalised as list.insert does) and the layer - so that the clause below can speak about WHERE the code put it
+    without an existential."""
+    from pyvc.builtins import call_method
+    fr = run.call_frame
+    objnode = node.func.value
+    obj = run.ev(objnode, fr)
+    n = z3.Length(obj.t)
+    i = run.coerce(args[0], TInt).t
+    run.ghost["inserted_at"] = Val(TInt, z3.If(i < 0, z3.If(i + n < 0, 0, i + n), z3.If(i > n, n, i)))
+    run.ghost["layers_before_insert"] = Val(LAYERS, obj.t)
+    k = run.ghost.get("insert_calls")
+    run.ghost["insert_calls"] = Val(TInt, (k.t if k is not None else z3.IntVal(0)) + 1)
+    res, new = call_method(run, obj, "insert", args, kwargs, node)
+    run.assign(objnode, new, fr, writeback=True)
+    return res
+
+
+def _captured_layer_position(c):
+    """From the property ("fill content sees inner-component data over variables bound between the component tag and the fill over
+    outer variables"; "extended only by its enclosing loops and the slot-data / slot-default aliases"): while the fill renders,
+    the layers are the entry layers with ONE layer inserted at some position p such that
+      * p is below the top layer (where the aliases were just bound) and, when a component's data layer is visible, below it;
+      * every layer that ends up ABOVE the inserted one is the top layer or one of the component's own layers (its data layer
+        and the one layer _prepare_template pushes right below it) - so no variable of the page / of an outer component can
+        shadow a loop variable that encloses the fill."""
+    if "layers_at_render" not in c.ghost or "last_component_layer" not in c.ghost or "inserted_at" not in c.ghost:
+        return z3.BoolVal(False)
+    Dr, D0, Dm = _Dr(c), D(c, "ctx", True), c.ghost["layers_before_insert"].t
+    r = c.ghost["last_component_layer"].t
+    has_r, rv = z3.Not(OI.is_none(r)), OI.get(r)
+    n = z3.Length(D0)
+    p, j = c.ghost["inserted_at"].t, z3.Const("bv_j", I)
+    extra = c.run.globals["extra_context"].t
+    return z3.And(
+        c.ghost["insert_calls"].t == 1, z3.Length(Dm) == n,
+        # nothing but the aliases (bound in the top layer) changed before the insertion, and the fill renders right after it
+        z3.ForAll([j], z3.Implies(z3.And(0 <= j, j < n - 1), Dm[j] == D0[j])),
+        z3.Length(Dr) == n + 1,
+        z3.ForAll([j], z3.Implies(z3.And(0 <= j, j < p), Dr[j] == Dm[j])),
+        z3.ForAll([j], z3.Implies(z3.And(p < j, j <= n), Dr[j] == Dm[j - 1])),
+        z3.Implies(z3.Not(OLAYER.is_none(extra)), z3.Or(LAYER.size(OLAYER.get(extra)) == 0, Dr[p] == OLAYER.get(extra))),
+        p <= n - 1, z3.Implies(has_r, p <= rv),
+        z3.Or(p >= n - 1, z3.And(has_r, p >= rv - 1)))
+
+
 REG.contract(
     f"{SLOTS}:_nodelist_to_slot_render_func.render_func", prop="C03", types={"ctx": Ref(CTX), "slot_data": Any_, "slot_ref": Any_}, result=Str,
-    globals=RF_GLOBALS, calls={"get_last_index": _last_index_with_component_key},
-    requires=[lambda c: c["ctx"].t > 0, lambda c: z3.Length(D(c, "ctx")) >= 1],
+    globals=RF_GLOBALS, calls={"get_last_index": _last_index_with_component_key, "ctx.dicts.insert": _dicts_insert},
+    requires=[lambda c: c["ctx"].t > 0, lambda c: z3.Length(D(c, "ctx")) >= 1,
+              # A-DJ: the bottom layer of a Django Context is its builtins layer (True / False / None); it cannot be popped and the
+              # library only ever binds its component key in layers it pushes
+              lambda c: z3.Not(z3.Select(LAYER.has(D(c, "ctx")[0]), COMPKEY))],
     modifies=[f"{CTX}.dicts"], raises={"Any": None},
     ensures={
         "slot_data_alias_is_the_innermost_binding_while_the_fill_renders": lambda c: _alias_innermost(c, "data_var", "slot_data", unless="default_var"),
         "slot_default_alias_is_the_innermost_binding_while_the_fill_renders": lambda c: _alias_innermost(c, "default_var", "slot_ref"),
+        "captured_loop_variables_sit_above_every_outer_layer_and_below_the_component_data_and_the_aliases": _captured_layer_position,
         "exactly_one_layer_inserted_while_the_fill_renders": lambda c: z3.Length(_Dr(c)) == z3.Length(D(c, "ctx", True)) + 1,
         "number_of_layers_restored": lambda c: z3.Length(D(c, "ctx")) == z3.Length(D(c, "ctx", True)),
         "no_other_context_touched": lambda c: _others_unchanged(c, c.old("ctx").t),
@@ -287,20 +339,22 @@ def _replay_render_func(model, ob):
     from django.template import Context, Template
     from django_components.slots import _nodelist_to_slot_render_func
     nodelist = Template("[{{ d.x }}|{{ r }}|{{ item }}]").nodelist
-    for with_component_layer in (True, False):
+    for with_component_layer, page_defines_item in ((True, False), (False, False), (True, True), (False, True)):
         for extra in ({"item": "LOOP"}, None):
             slot = _nodelist_to_slot_render_func("comp", "s", nodelist, data_var="d", default_var="r", extra_context=extra)
             ctx = Context({"page": 1, "d": {"x": "PAGE"}, "r": "PAGE"})
+            if page_defines_item:
+                ctx.update({"item": "PAGE"})        # a page variable named like the loop variable that encloses the fill
             if with_component_layer:
                 ctx.update({})
                 ctx.update({"_DJC_COMPONENT_CTX": "id", "d": {"x": "COMPONENT"}, "r": "COMPONENT", "item": "COMPONENT"})
             ctx.update({})
             depth = len(ctx.dicts)
             out = slot.content_func(ctx, {"x": "DATA"}, "REF")
-            item = "COMPONENT" if with_component_layer else ("LOOP" if extra else "")
+            item = "COMPONENT" if with_component_layer else ("LOOP" if extra else ("PAGE" if page_defines_item else ""))
             want = f"[DATA|REF|{item}]"
             if str(out) != want or len(ctx.dicts) != depth:
-                return {"confirmed": True, "function": "render_func", "inputs": {"component layer present": with_component_layer, "extra_context": extra, "aliases": "data=d default=r"},
+                return {"confirmed": True, "function": "render_func", "inputs": {"component layer present": with_component_layer, "page defines `item`": page_defines_item, "extra_context": extra, "aliases": "data=d default=r"},
                         "expected": f"{want} and {depth} layers afterwards", "observed": f"{out} and {len(ctx.dicts)} layers"}
     return {"confirmed": False}
 
